@@ -134,12 +134,12 @@ def check_array_cursor(P, ctx):
     ctx.floor(rule, 2)
 
 
-def check_mirrors(P, ctx):
+def check_mirrors(P, ctx, types=('Array', 'List', 'Tuple', 'Table', 'Tree')):
     """the cursor functions of the five containers, evaluated on small instances (absmodel): forwards they yield the elements in order
     and end with Terminal, backwards the reverse"""
     from . import absmodel
     rule = 'C11.cursor-walk'
-    for T in ('Array', 'List', 'Tuple', 'Table', 'Tree'):
+    for T in types:
         try:
             bad, unsup, ncase = absmodel.eval_cursor_walk(P, T)
         except absmodel.Unsupported as x:
@@ -153,7 +153,7 @@ def check_mirrors(P, ctx):
             else:
                 ctx.check(bad[m] is None, rule, '%s.%s' % (T, m), site(fn), 'on every small instance (0..3 elements; Table: every occupancy of up to 4 slots; Tree: every shape of up to '
                           '4 nodes) the forward walk yields the elements in order then Terminal, the backward walk the reverse', [bad[m]] if bad[m] else None)
-    ctx.floor(rule, 20)
+    ctx.floor(rule, 4 * len(types))
 
 
 def check_direction(P, ctx):
@@ -921,6 +921,142 @@ def check_slice_get_keeps_position(P, ctx):
     ctx.floor(rule, 1)
 
 
+def check_range_construction(P, ctx):
+    """range(...) with 0..3 arguments (`_` for an omitted start / step) builds the Range its arguments describe — with no argument the
+    empty Range [0, 0) of step 1, which enumerate() relies on: it only sets the stop bound to the length of what it enumerates.
+    range_stack and enumerate_stack evaluated (cint) on a Range whose fields start out zero, as the range() macro hands it over."""
+    from . import cint
+    rule = 'C11.range-construction'
+    fn = P.fn('range_stack')
+    fe = P.fn('enumerate_stack')
+    ctx.fn(fn)
+    ctx.fn(fe)
+    UND, ARGS, RNG, ITER = 8800, 8900, ('ep', 'r', 0), 9100
+    bad, unsup, ncase = None, None, 0
+    cases = [()] + [(a,) for a in (0, 3, -2)] + [(a, b) for a in (UND, 0, 2, -1) for b in (0, 5)] + [(a, b, c) for a in (UND, 1) for b in (0, 7) for c in (UND, 1, 2, -1)]
+    for args in cases:
+        atoms = {('global', 'NULL'): 0, ('global', 'Terminal'): 7777, ('global', 'Undefined'): UND, ('global', '_'): UND,
+                 ('elem', 'r', 0, 'start'): 0, ('elem', 'r', 0, 'stop'): 0, ('elem', 'r', 0, 'step'): 0, ('elem', 'r', 0, 'value'): ('ep', 'rv', 0)}
+
+        def call(nm, e, it, args=args):
+            if nm == 'len' and it.ev(e[2][0]) == ARGS:
+                return len(args)
+            if nm == 'get' and it.ev(e[2][0]) == ARGS:
+                k = it.ev(e[2][1])
+                k = k[2][0] if isinstance(k, tuple) and k[0] == 'stack' else k
+                if not (isinstance(k, int) and 0 <= k < len(args)):
+                    raise cint.NoEval('argument %r of %d' % (k, len(args)))
+                return UND if args[k] == UND else ('arg', k)
+            if nm == 'c_int':
+                v = it.ev(e[2][0])
+                if isinstance(v, tuple) and v[0] == 'arg':
+                    return args[v[1]]
+                raise cint.NoEval('c_int of %r' % (v,))
+            raise cint.NoEval('call %s' % nm)
+        it = cint.CInt(P, fn, atoms=atoms, call=call, recurse=True, strict=True)
+        it.atoms = atoms
+        r = it.run([RNG, ARGS])
+        ncase += 1
+        lab = 'range(%s)' % ', '.join('_' if a == UND else str(a) for a in args)
+        if r[0] != 'ret':
+            unsup = unsup or '%s: %s' % (lab, r[1])
+            continue
+        want = {0: (0, 0, 1), 1: (0, args[0] if args else 0, 1)}.get(len(args))
+        if len(args) == 2:
+            want = (0 if args[0] == UND else args[0], args[1], 1)
+        if len(args) == 3:
+            want = (0 if args[0] == UND else args[0], args[1], 1 if args[2] == UND else args[2])
+        got = tuple(atoms[('elem', 'r', 0, f)] for f in ('start', 'stop', 'step'))
+        if got != want:
+            bad = bad or '%s builds (start, stop, step) = %s, expected %s' % (lab, got, want)
+        if not args:
+            # enumerate(I) = enumerate_stack(zip(range(), I))
+            for n in (1, 3):
+                a2 = dict(atoms)
+                a2.update({('elem', 'z', 0, 'iters'): 9200})
+
+                def call2(nm, e, it, n=n):
+                    if nm == 'get' and it.ev(e[2][0]) == 9200:
+                        k = it.ev(e[2][1])
+                        k = k[2][0] if isinstance(k, tuple) and k[0] == 'stack' else k
+                        return RNG if k == 0 else ITER
+                    if nm == 'len' and it.ev(e[2][0]) == ITER:
+                        return n
+                    raise cint.NoEval('call %s' % nm)
+                it2 = cint.CInt(P, fe, atoms=a2, call=call2, recurse=True, strict=True)
+                it2.atoms = a2
+                r2 = it2.run([('ep', 'z', 0)])
+                ncase += 1
+                if r2[0] != 'ret':
+                    unsup = unsup or 'enumerate over %d items: %s' % (n, r2[1])
+                    continue
+                got2 = tuple(a2[('elem', 'r', 0, f)] for f in ('start', 'stop', 'step'))
+                if got2 != (0, n, 1):
+                    bad = bad or 'enumerate over %d items counts with the Range (start, stop, step) = %s, expected (0, %d, 1): it yields %s' % (
+                        n, got2, n, 'nothing' if got2[2] == 0 or got2[1] <= got2[0] else 'other indices')
+    ctx.stats['paths'] += ncase
+    if unsup and not bad:
+        ctx.undecided(rule, 'range_stack', site(fn), 'leaves the evaluated fragment: ' + unsup)
+    else:
+        ctx.check(bad is None, rule, 'range_stack', site(fn), 'range() with 0..3 arguments builds the Range they describe, and enumerate counts 0..len-1 with it (%d cases evaluated)' % ncase,
+                  [bad] if bad else None)
+    ctx.floor(rule, 1)
+
+
+def check_view_assign(P, ctx):
+    """a Range / Slice that is assigned (or copied: copy is allocate + assign) selects what its source selects: start, stop and step, and
+    for a Slice the underlying iterable, are taken over.  Range's and Slice's assign evaluated (cint)."""
+    from . import cint
+    rule = 'C11.view-assign'
+    for T in ('Range', 'Slice'):
+        fn = P.fn(P.slot(T, 'Assign', 'assign'))
+        ctx.fn(fn)
+        bad, unsup = None, None
+        for (a, b, c) in ((0, 5, 1), (2, 9, 3), (-2, 2, 2), (0, 6, -1)):
+            atoms = {('global', 'NULL'): 0}
+            for nm_, vals in (('dr', (7, 8, 1)), ('sr', (a, b, c))):
+                for f, v in zip(('start', 'stop', 'step'), vals):
+                    atoms[('elem', nm_, 0, f)] = v
+                atoms[('elem', nm_, 0, 'value')] = ('ep', nm_ + 'v', 0)
+                atoms[('elem', nm_ + 'v', 0, 'val')] = 0
+            atoms.update({('elem', 'd', 0, 'iter'): 9001, ('elem', 'd', 0, 'range'): ('ep', 'dr', 0), ('elem', 's', 0, 'iter'): 9002, ('elem', 's', 0, 'range'): ('ep', 'sr', 0)})
+
+            def call(nm, e, it):
+                if nm == 'cast':
+                    return it.ev(e[2][0])
+                if nm == 'assign':
+                    x, y = it.ev(e[2][0]), it.ev(e[2][1])
+                    if x == ('ep', 'dr', 0) and y == ('ep', 'sr', 0):
+                        # (what Range's assign does is evaluated for Range itself)
+                        for f in ('start', 'stop', 'step'):
+                            it.atoms[('elem', 'dr', 0, f)] = it.atoms[('elem', 'sr', 0, f)]
+                        return x
+                    if isinstance(x, tuple) and isinstance(y, tuple) and x[1].endswith('v') and y[1].endswith('v'):
+                        it.atoms[('elem', x[1], 0, 'val')] = it.atoms[('elem', y[1], 0, 'val')]
+                        return x
+                    raise cint.NoEval('assign of %r' % ((x, y),))
+                raise cint.NoEval('call %s' % nm)
+            it = cint.CInt(P, fn, atoms=atoms, call=call, recurse=False, strict=True)
+            it.atoms = atoms
+            r = it.run([('ep', 'dr', 0), ('ep', 'sr', 0)] if T == 'Range' else [('ep', 'd', 0), ('ep', 's', 0)])
+            if r[0] != 'ret':
+                unsup = unsup or '%s' % (r[1],)
+                continue
+            got = tuple(atoms[('elem', 'dr', 0, f)] for f in ('start', 'stop', 'step'))
+            if atoms[('elem', 'd', 0, 'range')] != ('ep', 'dr', 0) and T == 'Slice':
+                got = tuple(atoms.get(('elem', atoms[('elem', 'd', 0, 'range')][1], 0, f)) for f in ('start', 'stop', 'step')) if isinstance(atoms[('elem', 'd', 0, 'range')], tuple) else None
+            if got != (a, b, c):
+                bad = bad or 'assigned from a %s over [%d, %d) step %d, the target selects (start, stop, step) = %s' % (T, a, b, c, got)
+            elif T == 'Slice' and atoms[('elem', 'd', 0, 'iter')] != 9002:
+                bad = bad or 'the target keeps its own underlying iterable'
+        if unsup and not bad:
+            ctx.undecided(rule, fn['name'], site(fn), 'leaves the evaluated fragment: ' + unsup)
+        else:
+            ctx.check(bad is None, rule, fn['name'], site(fn), 'after assign the target selects what the source selects (start, stop, step%s)' % (', underlying iterable' if T == 'Slice' else ''),
+                      [bad] if bad else None)
+    ctx.floor(rule, 2)
+
+
 def check_cursor_loops(P, ctx):
     """The end of an iteration is the object Terminal, not NULL: a loop that runs while a cursor obtained from iter_init / iter_next
     (or a container's own cursor functions) is merely non-NULL walks on from Terminal."""
@@ -1003,7 +1139,12 @@ def run(ctx, load):
     check_len_iter_agree(P, ctx)
     check_table_scan(P, ctx)
     check_cursor_scratch(P, ctx)
+    check_range_construction(P, ctx)
+    check_view_assign(P, ctx)
     check_slice_get_keeps_position(P, ctx)
+    # Tree cursors climb parent links: every child-link store is paired with the child's parent-link update (shared with C03.link-pairing)
+    from .rules_c03 import check_links
+    ctx.borrow('C11.tree-parent-links', 4, lambda: check_links(P, ctx))
     check_range_arithmetic(P, ctx)
     check_zip_alignment(P, ctx)
     check_slice_clamp(P, ctx)
